@@ -12,6 +12,13 @@ gk_siftdown <k> <k priorities> <k indices> <elt>                     ->  prios ;
 gk_deheap <n> <k> <n*k priorities> <n*k indices>                     ->  prios (row-major) ; idxs       | oob
 ```
 gk_apply <T> <n> <k> | <n*k prios> | <n*k idxs> | <n*k flags> | p q dbits … | starts …   ->  <changes> | prios | idxs | flags   | oob
+gk_apply_high <n> <k> | <n*k prios> | <n*k idxs> | <n*k flags> | p q dbits … | starts …  ->  <changes> | prios | idxs | flags | record   | oob
+(`gk_apply_high` runs the translated `apply_graph_updates_high_memory` from the record `in_graph[i] = set(indices[i])` that
+`nn_descent` builds; `record` = the final sets, each printed sorted and de-duplicated, rows separated by `,`.)
+gk_initnbr <n> <k> <m> <w> | <m*w idxs> | <m*w dist bits>   ->  prios | idxs | flags   | oob
+(`gk_initnbr` runs the translated `init_from_neighbor_graph` on `make_heap(n, k)`'s arrays, fuel = m + w + k + 4.)
+gk_visited <m> <m bytes> <c>   ->  0|1 (the translated `has_been_visited` answered zero / non-zero)   | oob
+gk_mark <m> <m bytes> <c>      ->  bytes after the translated `mark_visited`                       | oob
 (`gk_apply` runs the translated `apply_graph_updates_low_memory` with fuel = T + blocks + updates + k + 8; `starts` cuts the
 update triples into the per-block lists, each of which begins with the `(-1, -1, inf)` placeholder as in `nn_descent`.)
 (`gk_deheap` runs the translated 2-D `deheap_sort` with fuel = n + k + 2 and also checks that the two array pairs it
@@ -51,6 +58,39 @@ def handleGenKApply : Handler := fun toks =>
       some (toString c ++ " | " ++ showFs (D'.toList.flatMap (·.toList)) ++ " | " ++ showInts (I'.toList.flatMap (·.toList))
             ++ " | " ++ showInts (Fl'.toList.flatMap (·.toList)))
     | none => some "oob"
+  | ["gk_apply_high", n, k] :: ps :: is :: fs :: ups :: [starts] =>
+    if !allNats [n, k] || !allNats ps || !allInts is || !allInts fs || !allInts ups || !allNats starts then some "bad-op" else
+    let n := pNat n; let k := pNat k
+    if ps.length ≠ n * k || is.length ≠ n * k || fs.length ≠ n * k || ups.length % 3 ≠ 0 || starts.length < 1 then some "bad-op" else
+    let D : Array (Array F) := rowsOf n k (ps.map pF)
+    let I : Array (Array Int) := rowsOf n k (is.map pInt)
+    let Fl : Array (Array Int) := rowsOf n k (fs.map pInt)
+    let tr := triples ups
+    let st := starts.map pNat
+    let blocks : Array (Array (Int × Int × F)) :=
+      ((st.zip (st.drop 1)).map (fun (a, b) => (((-1 : Int), (-1 : Int), finf) :: (tr.drop a).take (b - a)).toArray)).toArray
+    let rec0 : Array (List Int) := I.map (·.toList)
+    let fuel := blocks.size + tr.length + k + 8
+    match GenK.apply_graph_updates_high_memory fuel I D Fl blocks rec0 with
+    | some (I', D', Fl', s', c) =>
+      let showSet := fun (l : List Int) => showInts ((l.toArray.qsort (· < ·)).toList.eraseDups)
+      some (toString c ++ " | " ++ showFs (D'.toList.flatMap (·.toList)) ++ " | " ++ showInts (I'.toList.flatMap (·.toList))
+            ++ " | " ++ showInts (Fl'.toList.flatMap (·.toList)) ++ " | " ++ " , ".intercalate (s'.toList.map showSet))
+    | none => some "oob"
+  | ["gk_initnbr", n, k, m, w] :: is :: [ds] =>
+    if !allNats [n, k, m, w] || !allInts is || !allNats ds then some "bad-op" else
+    let n := pNat n; let k := pNat k; let m := pNat m; let w := pNat w
+    if is.length ≠ m * w || ds.length ≠ m * w then some "bad-op" else
+    let D : Array (Array F) := Array.replicate n (Array.replicate k finf)
+    let I : Array (Array Int) := Array.replicate n (Array.replicate k (-1))
+    let Fl : Array (Array Int) := Array.replicate n (Array.replicate k 0)
+    match GenK.init_from_neighbor_graph (m + w + k + 4) I D Fl (rowsOf m w (is.map pInt)) (rowsOf m w (ds.map pF)) with
+    | some (I', D', Fl') =>
+      some (showFs (D'.toList.flatMap (·.toList)) ++ " | " ++ showInts (I'.toList.flatMap (·.toList))
+            ++ " | " ++ showInts (Fl'.toList.flatMap (·.toList)))
+    | none => some "oob"
+  | ("gk_initnbr" :: _) :: _ => some "bad-op"
+  | ("gk_apply_high" :: _) :: _ => some "bad-op"
   | ("gk_apply" :: _) :: _ => some "bad-op"
   | _ => none
 
@@ -107,6 +147,18 @@ def handleGenK : Handler
       let flatI := I'.toList.flatMap (·.toList)
       if I'' != I' || D''.toList.flatMap (·.toList.map showF) != flatD.map showF then some "result-pairs-differ" else
       some (showFs flatD ++ " ; " ++ showInts flatI)
+    | none => some "oob"
+  | "gk_visited" :: m :: rest =>
+    if !allNats [m] || !allInts rest || rest.length ≠ pNat m + 1 then some "bad-op" else
+    let table : Array Int := ((rest.take (pNat m)).map pInt).toArray
+    match GenK.has_been_visited 0 table (pInt (rest.getD (pNat m) "0")) with
+    | some r => some (if r = 0 then "0" else "1")
+    | none => some "oob"
+  | "gk_mark" :: m :: rest =>
+    if !allNats [m] || !allInts rest || rest.length ≠ pNat m + 1 then some "bad-op" else
+    let table : Array Int := ((rest.take (pNat m)).map pInt).toArray
+    match GenK.mark_visited 0 table (pInt (rest.getD (pNat m) "0")) with
+    | some t => some (showInts t.toList)
     | none => some "oob"
   | "gk_deheap" :: _ => some "bad-op"
   | "gk_push" :: _ => some "bad-op"
